@@ -380,16 +380,25 @@ func (r *Run) explore(g Group, h HarnessSpec, fn *ssa.Function) *HarnessResult {
 		wg.Add(1)
 		go func(w int) {
 			defer wg.Done()
-			proc, err := smt.Start(smt.Z3)
+			be := smt.Z3
+			switch h.Solver {
+			case "cvc5int":
+				be = smt.CVC5Int
+			case "z3new":
+				be = smt.Z3New
+			case "cvc5":
+				be = smt.CVC5
+			}
+			proc, err := smt.Start(be)
 			if err != nil {
 				mu.Lock()
-				hr.Problems = append(hr.Problems, "cannot start z3: "+err.Error())
+				hr.Problems = append(hr.Problems, "cannot start solver: "+err.Error())
 				mu.Unlock()
 				return
 			}
 			defer func() {
 				r.mu.Lock()
-				r.solverTime["z3"] += proc.Time.Seconds()
+				r.solverTime[be.Name] += proc.Time.Seconds()
 				r.mu.Unlock()
 				proc.Close()
 			}()
